@@ -226,6 +226,15 @@ func TestC06(t *testing.T) {
 			U, m := len(gr.GV.Untainted), gr.EffMin
 			clamp := o.FastNodeRemovalRate > U-m
 			nonEmpty := ex.Bands[ref.BandUp] || (ex.Bands[ref.BandFast] && minI(o.FastNodeRemovalRate, U-m) > 0) || (ex.Bands[ref.BandSlow] && minI(o.SlowNodeRemovalRate, U-m) > 0)
+			if ex.Starve {
+				col.Class("trigger:starve")
+			}
+			if ex.MaxAge {
+				col.Class("trigger:max_node_age")
+			}
+			if ex.Edge != "" {
+				col.Class("edge:" + ex.Edge)
+			}
 			if nonEmpty || ex.Edge != "" || ex.Starve || ex.MaxAge {
 				keys = append(keys, fmt.Sprintf("band|%v|%s|clamp=%v|tainted=%v|starve=%v|maxage=%v|U0=%v", ex.Bands, ex.Edge, clamp, len(gr.GV.Tainted) > 0, ex.Starve, ex.MaxAge, U == 0))
 			}
